@@ -119,11 +119,52 @@ def write_coqproject():
         sh("coq_makefile -f _CoqProject -o Makefile", cwd=COQ, check=True)
 
 
+def _direct_deps(rel):
+    """GV source files (relative paths) that the file `rel` requires directly."""
+    have = set(coq_sources())
+    src = strip_comments(open(os.path.join(COQ, rel)).read())
+    out = []
+    for m in re.finditer(r"(From\s+GV\s+)?Require\s+(?:Import\s+|Export\s+)?([^.]*(?:\.[A-Za-z_][^.]*)*?)\.(?=\s)", src, re.S):
+        for name in m.group(2).split():
+            if name.startswith("GV."):
+                name = name[3:]
+            elif not m.group(1):
+                continue
+            f = name.replace(".", "/") + ".v"
+            if f in have:
+                out.append(f)
+    return out
+
+
+def coq_uptodate(targets):
+    """True when every .vo in the dependency closure of the targets exists, is newer than its
+    source and not older than the .vo files it was compiled against — i.e. `make` would do nothing.
+    Lets a check whose area nobody is editing skip the (machine-wide, exclusive) build lock."""
+    try:
+        mods = ["GV." + t[:-3].replace("/", ".") for t in targets]
+        for rel in dep_closure(mods):
+            vo = os.path.join(COQ, rel + "o")
+            if not os.path.exists(vo):
+                return False
+            t = os.path.getmtime(vo)
+            if os.path.getmtime(os.path.join(COQ, rel)) > t:
+                return False
+            for d in _direct_deps(rel):
+                dvo = os.path.join(COQ, d + "o")
+                if not os.path.exists(dvo) or os.path.getmtime(dvo) > t:
+                    return False
+        return True
+    except OSError:
+        return False
+
+
 def coq_make(targets=None, timeout=3000, keep_going=False):
     """Full .vo build (never -vos) of the given targets (relative .vo paths) or of everything.
     Serialised by a file lock so that concurrent checks do not race on the Makefile / .vo files."""
     import fcntl
     os.makedirs(BUILD, exist_ok=True)
+    if targets and coq_uptodate(targets):
+        return True, "up to date (every .vo in the dependency closure is newer than its source and its dependencies)"
     with open(os.path.join(BUILD, "coq.lock"), "w") as lk:
         fcntl.flock(lk, fcntl.LOCK_EX)
         write_coqproject()
